@@ -45,9 +45,13 @@ def corner2(metric, xs, ys):
     return dx * dx + dy * dy if metric == "E" else dx + dy
 
 
+KINDS = ["plain", "zero", "precision", "repeat", "signed", "naninf", "precision", "plain"]
+
+
 def make_rasters(rng, n, shapes):
     out = []
-    for _ in range(n):
+    for idx in range(n):
+        kind = KINDS[idx % len(KINDS)]
         H, W = rng.choice(shapes)
         sx, sy = rng.choice([(1, 1), (1, 1), (2, 1), (1, 3), (3, 2)])
         x0 = rng.randrange(-3, 3)
@@ -66,15 +70,14 @@ def make_rasters(rng, n, shapes):
                 if not mask[r][c] and rng.random() < 0.08:
                     vals[r][c] = "nan"
         ras = dict(H=H, W=W, xs=xs, ys=ys, sx=sx, sy=sy, metric=metric, vals=vals, mask=mask, targets=[], dtype=None)
-        u = rng.random()
-        if u < 0.25:
+        if kind == "zero":
             # explicit target value 0: a halo filled with 0 instead of NaN would create phantom targets
             ras["vals"] = [[0 if mask[r][c] else rng.choice([3, 4, 5]) for c in range(W)] for r in range(H)]
             ras["targets"] = [0]
-        elif u < 0.45:
+        elif kind == "repeat":
             # repeated target values
             ras["vals"] = [[rng.choice([1, 2]) * mask[r][c] for c in range(W)] for r in range(H)]
-        elif u < 0.70:
+        elif kind == "signed":
             # signed target values that cancel (+v / -v): a block (with its halo) whose values SUM to zero still
             # holds targets - any "empty chunk" shortcut based on a sum or mean must not fire
             v = rng.choice([4, 1, 2.5])
@@ -85,7 +88,20 @@ def make_rasters(rng, n, shapes):
             if len(flat) % 2 == 1 and len(flat) > 1:
                 r, c = flat[-1]
                 ras["vals"][r][c] = -v
-        if rng.random() < 0.3 and all(not isinstance(v, str) for row in ras["vals"] for v in row):
+        elif kind in ("precision", "naninf"):
+            # explicit target values single precision cannot tell from their neighbours, and NaN/inf cells next to
+            # targets 0 / inf: the Dask path must compare exactly what the NumPy path compares
+            if kind == "precision":
+                tv, others = rng.choice([([0.1], [float.fromhex("0x1.99999a0000000p-4"), 0.3, 7]),
+                                         ([16777217], [16777216, 16777218, 5]),
+                                         ([16777216], [16777217, 16777215, 1])])
+            else:
+                tv, others = rng.choice([([0], ["nan", "inf", 3, 4]), (["inf"], [0, 3, "nan"]),
+                                         ([0, "inf"], ["nan", 5, "-inf"])])
+            ras["vals"] = [[rng.choice(tv) if mask[r][c] else rng.choice(others) for c in range(W)] for r in range(H)]
+            ras["targets"] = tv
+        if rng.random() < 0.3 and all(not isinstance(v, str) and abs(v) < 1e6 and float(v) == int(v)
+                                      for row in ras["vals"] for v in row):
             ras["dtype"] = rng.choice(["int32", "uint8", "int64", "float32"])
         out.append(ras)
     return out
@@ -189,7 +205,7 @@ def run(ctx):
             # always include all-1-cell chunks and the single block
             extra = [allch[-1], allch[0]]
             for rc, rs, cc, cs in chs + [e for e in extra if e not in chs]:
-                dk_jobs.append(dict(base, chunks=[rs, cs], tag="dask",
+                dk_jobs.append(dict(base, chunks=[rs, cs], tag="dask", joint=bool(rng.random() < 0.15),
                                     scheduler="threads" if rng.random() < 0.2 else "synchronous"))
                 meta.append((npi, k, rc, cc, is_small, ras))
     evaluate(ctx, rng, np_jobs, dk_jobs, meta)
